@@ -727,6 +727,21 @@ def _backtrack_factor(f, n):
     return None
 
 
+def _factor_of(f, e):
+    """c when e is `X->backtrack` (1) or `X->backtrack * c` / `c * X->backtrack`"""
+    r = cu.strip_casts(f, e)
+    if r is None:
+        return None
+    if r['k'] == 'member' and r['fld'] == 'backtrack':
+        return 1
+    if r['k'] == 'bin' and r['op'] == '*':
+        a, b_ = cu.strip_casts(f, f.kid(r, 0)), cu.strip_casts(f, f.kid(r, 1))
+        for x, y in ((a, b_), (b_, a)):
+            if x is not None and x['k'] == 'member' and x['fld'] == 'backtrack' and cu.const_of(y) is not None:
+                return cu.const_of(y)
+    return None
+
+
 def r1_4(ctx):
     """atom transformations keep the atom where it was: the factor applied to
     byte positions is the factor applied to the backtrack distance"""
@@ -758,6 +773,13 @@ def r1_4(ctx):
                         sc.add(c)
                     else:
                         sc.add(None)
+        # a block copy of the atom's bytes keeps every byte at its position
+        for x in f.calls():
+            if x.get('callee') in ('memcpy', 'memmove'):
+                a = f.call_args(x)
+                d = canon(f, a[0]) if a else ''
+                if d.endswith('->atom.bytes'):
+                    scales.setdefault(d[:-len('->atom.bytes')], set()).add(1)
         for dst, sc in sorted(scales.items()):
             # the backtrack of dst: assigned here, or by the static helper that produced dst
             k = None
@@ -781,10 +803,24 @@ def r1_4(ctx):
                     if src is not None and src['k'] == 'call' and src.get('callee'):
                         h = f.tu.functions.get(src['callee'])
                         if h is not None and getattr(h, 'static', False):
+                            hp = [p_['name'] for p_ in h.params]
                             for m in h.all_nodes():
                                 bf = _backtrack_factor(h, m)
                                 if bf is not None:
                                     k, where = bf[1], n
+                                    continue
+                                # `item->backtrack = backtrack;` with the value computed by the caller
+                                if m['k'] == 'bin' and m['op'] == '=':
+                                    l_ = cu.strip_casts(h, h.kid(m, 0))
+                                    r_ = cu.strip_casts(h, h.kid(m, 1))
+                                    if l_ is not None and l_['k'] == 'member' and l_['fld'] == 'backtrack' and \
+                                            r_ is not None and r_['k'] == 'ref' and r_['name'] in hp:
+                                        args = f.call_args(src)
+                                        j = hp.index(r_['name'])
+                                        if j < len(args):
+                                            fe = _factor_of(f, args[j])
+                                            if fe is not None:
+                                                k, where = fe, n
             if where is None:
                 continue            # bytes written into an object whose backtrack is not derived here
             n_fn += 1
